@@ -175,12 +175,22 @@ def c04_4(c: Ctx) -> None:
     allowed = {f'not {bus}', f'not {bus}.event_queue', f'not {bus}._is_running', f'{bus} is None', f'{bus}.event_queue is None'}
     from sa.cfg import search
 
+    live_atoms = {bus, f'{bus}.event_queue', f'{bus}._is_running'}
+    f_live = Facts(lambda a: a in live_atoms)
+
     def allowed_skip(n, e) -> bool:
-        if n.kind != 'if' or e.label != 'true':
+        # the branch cannot be taken for a bus that exists, has a queue and is running — however the test is spelled
+        if n.kind != 'if' or e.label not in ('true', 'false'):
             return False
         t = n.ast.test
-        dis = t.values if isinstance(t, ast.BoolOp) and isinstance(t.op, ast.Or) else [t]
-        return all(U(x) in allowed for x in dis)
+        if e.label == 'true':
+            dis = t.values if isinstance(t, ast.BoolOp) and isinstance(t.op, ast.Or) else [t]
+            if all(U(x) in allowed for x in dis):
+                return True
+        if any(isinstance(x, ast.Call) for x in ast.walk(t)):
+            return False
+        env_ = {bus: 'Ty', f'{bus}.event_queue': 'Ty', f'{bus}._is_running': 'T'}
+        return f_live.assume(t, e.label == 'true', env_) is None
 
     flags = Facts(lambda a: a.startswith('__inl_'), cg=c.cg, unit=u)  # flags introduced by folding a helper with early returns: correlated branches
     p = search([(head, ())], is_target=lambda n, d: n is head, is_barrier=lambda n, d: n.id in aid,
